@@ -38,6 +38,7 @@ def accessor_view(ro):
 
 def run_behaviour(bid, beh, seed, observe=None, expose=None):
     g = Gamma("%s|%s" % (seed, bid))
+    g.str_decl = True
     from .render import ID_STYLES, id_style_map, restyle
     style = g.rng("idstyle").choice(ID_STYLES)
     if style != "plain":              # one id style for the whole behaviour (see render.py)
@@ -106,7 +107,7 @@ def run_behaviour(bid, beh, seed, observe=None, expose=None):
                     continue
                 m = live[step["ref"]][0]
             before = str(ro)
-            res, status, warns, err = add(ro, m)
+            res, status, warns, err = add(ro, m, direct=g.rng("direct", idx).random() < 0.2)
             if status == "ok":
                 if isinstance(res, execute.RunningOrder):
                     objs[o] = res
